@@ -118,6 +118,19 @@ impl DelegationManager {
             )));
         }
 
+        let key = Self::record_key(parent, child);
+
+        // A repeated delegation to the same child extends the existing record: the secrets
+        // delegated earlier stay covered, so that revoking the delegation revokes them too.
+        let mut secrets = secrets;
+        if let Some(existing) = self.records.get(&key) {
+            for secret in &existing.secrets {
+                if !secrets.contains(secret) {
+                    secrets.push(secret.clone());
+                }
+            }
+        }
+
         let record = DelegationRecord {
             parent: parent.to_string(),
             child: child.to_string(),
@@ -128,7 +141,6 @@ impl DelegationManager {
             delegation_depth: child_depth,
         };
 
-        let key = Self::record_key(parent, child);
         self.records.insert(key, record.clone());
         Ok(record)
     }
